@@ -638,6 +638,10 @@ def run_unit(pid, jobs, tier, seed=0, only=None):
                     continue
                 res.undecided.append((job.name, "obligation %s has status %s" % (o.prop, o.status)))
                 continue
+            if "unwinding assertion" in o.desc or "recursion unwinding assertion" in o.desc:
+                # the unwinding bound of the job does not cover a loop of the (changed) code: a limit of the search, not a verdict
+                res.undecided.append((job.name, "unwinding bound exceeded: %s in %s" % (o.desc, o.func)))
+                continue
             k = o.key()
             b = [r for (p, rx, r) in benign if p in ("*", pid, o.job[:3].upper()) and rx.search(k)]
             if b:
